@@ -1784,7 +1784,11 @@ class GroupBy:
         """
         # check for nullity
         kwargs = dict(agg_func=agg_func, margins=margins, values=values)
-        return self.agg(**kwargs, mask=subset_mask & global_mask) / self.agg(
+        if global_mask is None:
+            numerator_mask = subset_mask
+        else:
+            numerator_mask = subset_mask & global_mask
+        return self.agg(**kwargs, mask=numerator_mask) / self.agg(
             **kwargs, mask=global_mask
         )
 
